@@ -1,4 +1,5 @@
 """C06 — parsing any byte string terminates and fails only with a protocol error."""
+import struct
 import traceback
 
 from vf import gen, linemon
@@ -11,7 +12,7 @@ RULE = ('Message.parse(data, header_only, crypto) on: random byte strings; every
         'messages of each exchange kind; a structure-aware grid (every length / next-payload / more / count / critical field at '
         'payload, proposal, transform, attribute, selector, delete, notify level x hostile values); the same mutations applied to '
         'the PLAINTEXT of protected messages, re-padded and re-MACed with the right keys by the reference (plus wrong pad length, '
-        'pad > body, empty body, non-block-multiple ciphertext, IV only). Oracle per call: outcome in {return, InvalidSyntax, '
+        'pad > body, empty body, non-block-multiple ciphertext, IV only); (e) scaling: 17 extreme but well-formed shapes (thousands of pairwise different transforms in one proposal, many proposals, many attributes, selectors, SPIs, chained payloads, huge single bodies) at sizes 3..48 KB (thorough: 1.5..64 KB), clear and inside SK. Oracle per call: outcome in {return, InvalidSyntax, '
         'UnsupportedCriticalPayload} and executed repository lines <= 600 + 20*len + 5*S (S = SPI counts declared in DELETE headers); '
         'over budget the call is aborted from the LINE callback. distinct = (corpus class, outcome, raising function, length bucket).')
 ASSUMPTIONS = ['sys.monitoring LINE events of /repo code objects measure work; constants fixed from the densest honest inputs with >=3x head-room',
@@ -77,6 +78,77 @@ class Parser:
 def seal(hdr, inner_raw, inner_first, keys, rng, **kw):
     integ_id, sk_a, sk_e = keys
     return ikecrypto.sk_seal(hdr, None, integ_id, sk_a, sk_e, gen.rb(rng, 16), inner_raw=inner_raw, inner_first=inner_first, **kw)
+
+
+def _pl(nxt, body, crit=0):
+    return struct.pack('>BBH', nxt, crit, 4 + len(body)) + body
+
+
+def _transform(last, ttype, tid, attrs=b''):
+    return struct.pack('>BBHBBH', 0 if last else 3, 0, 8 + len(attrs), ttype, 0, tid) + attrs
+
+
+def _proposal(last, num, transforms, count=None, spi=b''):
+    tb = b''.join(transforms)
+    return struct.pack('>BBHBBBB', 0 if last else 2, 0, 8 + len(spi) + len(tb), num & 0xFF, 1, len(spi), (len(transforms) if count is None else count) & 0xFF) + spi + tb
+
+
+def large_chains(size):
+    """(name, first payload type, payload chain) of about `size` octets: well-formed but extreme in ONE count (transforms, proposals, attributes, selectors,
+    SPIs, payloads) or in one length; content pairwise different where a parser could be tempted to compare elements with each other."""
+    out = []
+    n = size // 12
+    keylen = lambda i: struct.pack('>HH', 0x800e, (i % 0xFFFF) + 1)
+    out.append(('sa.distinct-transforms', 33, _pl(0, _proposal(True, 1, [_transform(i == n - 1, 1, 12, keylen(i)) for i in range(n)]))))
+    out.append(('sa.same-transform-repeated', 33, _pl(0, _proposal(True, 1, [_transform(i == n - 1, 1, 12, keylen(255)) for i in range(n)]))))
+    out.append(('sa.distinct-transforms-count-255', 33, _pl(0, _proposal(True, 1, [_transform(i == n - 1, 1, 12, keylen(i)) for i in range(n)], count=255))))
+    np_ = size // 28
+    out.append(('sa.many-proposals', 33, _pl(0, b''.join(_proposal(i == np_ - 1, i + 1, [_transform(False, 1, 12, keylen(i)), _transform(True, 3, 12)]) for i in range(np_)))))
+    np2 = max(1, size // (8 + 255 * 12))
+    out.append(('sa.proposals-x-255-transforms', 33, _pl(0, b''.join(_proposal(i == np2 - 1, i + 1, [_transform(j == 254, 1, 12, keylen(i * 255 + j)) for j in range(255)]) for i in range(np2)))))
+    na = size // 4
+    out.append(('sa.transform-with-many-attributes', 33, _pl(0, _proposal(True, 1, [_transform(True, 1, 12, b''.join(keylen(i) for i in range(na)))]))))
+    ns = size // 16
+    sel = lambda i: struct.pack('>BBHHH', 7, 6, 16, i % 65536, 65535) + struct.pack('>LL', i, 0xFFFFFFFF)
+    out.append(('ts.many-selectors', 44, _pl(0, struct.pack('>B3x', ns & 0xFF) + b''.join(sel(i) for i in range(ns)))))
+    nd = size // 4
+    out.append(('delete.many-spis', 42, _pl(0, struct.pack('>BBH', 3, 4, nd & 0xFFFF) + b''.join(struct.pack('>L', i + 1) for i in range(nd)))))
+    nn = size // 12
+    out.append(('chain.many-notifies', 41, b''.join(_pl(0 if i == nn - 1 else 41, struct.pack('>BBHL', 0, 0, 16384 + i % 100, i)) for i in range(nn))))
+    out.append(('chain.many-deletes', 42, b''.join(_pl(0 if i == nn - 1 else 42, struct.pack('>BBHL', 3, 4, 1, i + 1)) for i in range(nn))))
+    nu = size // 8
+    out.append(('chain.many-unknown-noncritical', 200, b''.join(_pl(0 if i == nu - 1 else 200, struct.pack('>L', i)) for i in range(nu))))
+    out.append(('chain.many-vendor', 43, b''.join(_pl(0 if i == nu - 1 else 43, struct.pack('>L', i)) for i in range(nu))))
+    out.append(('chain.many-empty-payloads', 43, b''.join(_pl(0 if i == size // 4 - 1 else 43, b'') for i in range(size // 4))))
+    out.append(('length.huge-nonce', 40, _pl(0, bytes(range(256)) * (size // 256))))
+    out.append(('length.huge-ke', 34, _pl(0, struct.pack('>HH', 14, 0) + bytes(range(256)) * (size // 256))))
+    out.append(('length.huge-notify-data', 41, _pl(0, struct.pack('>BBH', 0, 0, 16390) + bytes(range(256)) * (size // 256))))
+    out.append(('length.huge-id', 35, _pl(0, struct.pack('>B3x', 2) + b'a' * size)))
+    return out
+
+
+def large_inputs(ck, P, rng):
+    """(e) scaling: the same extreme shape at growing sizes, clear (as IKE_SA_INIT, which nobody authenticates) and inside SK."""
+    crypto, keys = make_crypto(rng, True)
+    sizes = [3000, 12000, 48000] if not ck.thorough() else [1500, 3000, 6000, 12000, 24000, 48000, 64000]
+    n = 900000
+    for size in sizes:
+        for name, first, chain in large_chains(size):
+            n += 1
+            if not ck.mine(n):
+                continue
+            if 28 + len(chain) > 65500:
+                chain = None
+            if chain is None:
+                continue
+            hdr = {'spi_i': gen.rb(rng, 8), 'spi_r': bytes(8), 'major': 2, 'minor': 0, 'exch': 34, 'flags': 0x08, 'mid': 0}
+            clear = codec.enc_header(hdr, first, 28 + len(chain)) + chain
+            ck.seen('large.shapes', name)
+            ck.count('large.inputs')
+            P.one(f'large.{name}', clear)
+            if len(chain) < 65000:
+                hdr2 = dict(hdr, exch=36, spi_r=gen.rb(rng, 8), mid=3)
+                P.one(f'large.sealed.{name}', seal(hdr2, chain, first, keys, rng), crypto=crypto, desc={'inner': chain, 'inner_first': first, 'keys': keys})
 
 
 def run(ck):
@@ -186,6 +258,7 @@ def run(ck):
                 if ck.mine(n):
                     ck.seen('sealed.pathologies', pname)
                     P.one(f'sealed.patho.{pname}', remac(b), crypto=crypto, desc={'inner': b'', 'keys': keys})
+    large_inputs(ck, P, rng)
     ck.notes['max_lines_per_byte'] = round(P.max_density, 2)
     ck.sets['max_lines_per_byte'].add(round(P.max_density, 1))
     ck.sample({'class': 'grid.payload', 'example': codec.encode_clear(bases['informational'])[:64]})
@@ -200,6 +273,8 @@ def verdict(ck):
     ck.floor('rejected share %', 100 * c['outcome.protocol_error'] // max(total, 1), 25)
     for cls in ('grid.proposal', 'grid.transform', 'grid.selector', 'grid.delete', 'sealed.grid.payload', 'sealed.grid.proposal'):
         ck.floor(f'cases {cls}', c[f'parse.{cls}'], 300)
+    ck.floor('large extreme shapes', len(ck.sets['large.shapes']), 15)
+    ck.floor('large inputs parsed', c['large.inputs'], 40)
     ck.floor('authentic-but-malformed pathologies', len(ck.sets['sealed.pathologies']), 10)
     return {'max_lines_per_byte_seen': max(ck.sets['max_lines_per_byte']) if ck.sets['max_lines_per_byte'] else None,
             'budget_formula': '600 + 20*len(data) + 5*declared_delete_spis'}
